@@ -1,5 +1,6 @@
-(* C04: side conditions of theorem C04_T1_choice_clause_partial (coq/Spec/C04.v), on a schema in the encoding of
-   cmd_schema.ml:   c04side <opts> <n_order> name* <n_modules> module*   ->  "applied=<n> heights=ok|cut" *)
+(* C04: the side condition of theorem C04_T1_choice_clause_side_condition (coq/Spec/C04.v final_applied; a theorem,
+   C04_T1_reporting_pass_idle, for module sets with distinct names and orders that visit every module), on a schema in
+   the encoding of cmd_schema.ml:   c04side <opts> <n_order> name* <n_modules> module*   ->  "applied=<n>" *)
 open Drv
 open Schema
 
@@ -11,8 +12,7 @@ let do_side ts =
     let sc = Cmd_schema.p_list Cmd_schema.p_module in
     let has c = Str_.contains opts c in
     let a = C04.final_applied sc (has 'c') order in
-    let h = C04.heights_okb sc (has 'c') order in
-    Printf.sprintf "applied=%d heights=%s" (int_of_nat a) (if h then "ok" else "cut")
+    Printf.sprintf "applied=%d" (int_of_nat a)
   with Cmd_schema.Bad m -> "bad-case:" ^ m
 
 let () = register "c04side" do_side
